@@ -111,6 +111,49 @@ func hasType(cl *harness.Client, t byte) bool {
 	return false
 }
 
+// c15Sweeper: two sessions have expired and the sweeper's tick is due; the owner of the
+// second one reconnects while the sweeper runs.  Whoever wins, a connection that was
+// acknowledged is known to the broker afterwards (answers, can be found, is closed by
+// Stop).
+func c15Sweeper(o *c15Obs, clockFirst bool) {
+	w := c15World(0)
+	for _, id := range []string{"x1", "x2"} {
+		x := c15Connect(w, "X-"+id, id, true, &refmqtt.Props{SessionExpiry: harness.U32(10)})
+		x.Subscribe(0, refmqtt.Sub{Filter: "t", QoS: 1})
+		x.Close()
+		vsched.Settle()
+	}
+	vsched.Advance(19 * time.Second) // both sessions are expired, the sweeper ticks at 20s
+	y := w.Dial("Y")
+	y.Version = refmqtt.V5
+	reconnect := func() {
+		y.Send(harness.ConnectPacket(harness.ConnectOpts{ClientID: "x2", Clean: false, Version: refmqtt.V5, Props: &refmqtt.Props{SessionExpiry: harness.U32(10)}}))
+	}
+	if clockFirst {
+		vsched.Go("clock", func() { vsched.FireNext(-1) })
+		vsched.Go("reconnect", reconnect)
+	} else {
+		vsched.Go("reconnect", reconnect)
+		vsched.Go("clock", func() { vsched.FireNext(-1) })
+	}
+	vsched.Settle()
+	acked := hasType(y, refmqtt.CONNACK)
+	c15Answered(o, y, "CONNECT", acked)
+	if acked && !y.ClosedByBroker() {
+		if w.Srv.ClientService().GetClient("x2") == nil {
+			o.bad("attached", "acknowledged-connection-unknown-to-the-broker", "GetClient(x2) == nil after CONNACK")
+		}
+		if ss, _ := w.Srv.ClientService().GetSession("x2"); ss == nil {
+			o.bad("attached", "acknowledged-connection-without-session", "GetSession(x2) == nil after CONNACK")
+		}
+		y.Send(&refmqtt.Packet{Type: refmqtt.PINGREQ})
+		vsched.Settle()
+		c15Answered(o, y, "PINGREQ", hasType(y, refmqtt.PINGRESP))
+	}
+	o.outcome = fmt.Sprint(acked, y.ClosedByBroker())
+	c15Finish(o, w, []*harness.Client{y}, false)
+}
+
 type c15Scenario struct {
 	name string
 	body func(o *c15Obs)
@@ -249,6 +292,8 @@ func c15Scenarios() []c15Scenario {
 			o.outcome = fmt.Sprint(hasType(y, refmqtt.CONNACK), y.ClosedByBroker())
 			c15Finish(o, w, []*harness.Client{y}, false)
 		}},
+		{"sweeper-vs-reconnect-of-an-expired-session", func(o *c15Obs) { c15Sweeper(o, true) }},
+		{"reconnect-vs-sweeper-of-an-expired-session", func(o *c15Obs) { c15Sweeper(o, false) }},
 		{"api-publish-subscribe-stats-vs-client", func(o *c15Obs) {
 			w := c15World(0)
 			s := c15Connect(w, "S", "s", true, nil)
@@ -342,7 +387,7 @@ func c15Scenarios() []c15Scenario {
 
 func runC15(c *explore.Ctx) {
 	c.Level = "model_checking"
-	c.Rule = "E3: stateless schedule search (DFS over the choice points of the cooperative scheduler: every mutex/cond/channel/select/waitgroup/once/atomic-flag/conn-I/O operation of the instrumented broker) of 9 concurrent scenarios (take-overs, subscribe/publish/kill, QoS2 flow vs acks vs DISCONNECT, Stop vs CONNECT vs API publish, TerminateSession vs reconnect vs sweeper tick, API calls vs client publish, delayed-will timer vs Stop, stalled reader take-over, client killed with a full window), all schedules with <=1 (quick) / <=2 (thorough) deviations (a deviation demotes the running thread until all others are blocked; select alternatives are enumerated for free). After every execution: no panic, no deadlock, every request answered or its socket closed, Stop returns with listener and connections closed, Unload and OnStop exactly once, no broker goroutine alive. states = choice points visited, transitions = executions."
+	c.Rule = "E3: stateless schedule search (DFS over the choice points of the cooperative scheduler: every mutex/cond/channel/select/waitgroup/once/atomic-flag/conn-I/O operation of the instrumented broker) of 11 concurrent scenarios (take-overs, session sweeper vs the reconnect of an expired session (both start orders), subscribe/publish/kill, QoS2 flow vs acks vs DISCONNECT, Stop vs CONNECT vs API publish, TerminateSession vs reconnect vs sweeper tick, API calls vs client publish, delayed-will timer vs Stop, stalled reader take-over, client killed with a full window), all schedules with <=1 (quick) / <=2 (thorough) deviations (a deviation demotes the running thread until all others are blocked; select alternatives are enumerated for free). After every execution: no panic, no deadlock, every request answered or its socket closed, Stop returns with listener and connections closed, Unload and OnStop exactly once, no broker goroutine alive. states = choice points visited, transitions = executions."
 	c.Trusted = []string{"vsched: interleavings only at synchronisation operations (complete for data-race-free code); channel commit semantics as in the gc runtime", "memconn (no TCP RST modelling)"}
 	c.Assumptions = []string{"data-race freedom cannot be decided by the schedule search (a cooperative scheduler's hand-offs are happens-before edges); it is watched by a separate free-running pass: the uninstrumented broker under the Go race detector, driven over loopback TCP by concurrent subscribers, publishers, take-overs, administrative calls and Stop (coverage.race_pass); that pass is a dynamic detector on the schedules that happened, not an exhaustive search"}
 	bound := 1
